@@ -5,6 +5,7 @@ import (
 	"fmt"
 	"io"
 	"log/slog"
+	"math/big"
 	"net/http"
 	"os"
 	"path/filepath"
@@ -203,8 +204,7 @@ func (r *Receiver) SegmentHandlerFunc(w http.ResponseWriter, req *http.Request) 
 						t += masterTimeShift * int64(trd.timeScaleIn) / int64(masterTimescale)
 						rsd.isShifted = true
 					}
-					segDur := int64(masterSegDur) * int64(trd.timeScaleIn) / int64(masterTimescale)
-					rsd.seqNr = uint32((t+segDur/2)/segDur) - uint32(ch.startNr)
+					rsd.seqNr = nearestSegNr(t, trd.timeScaleIn, masterSegDur, masterTimescale) - uint32(ch.startNr)
 					if rsd.seqNr != rsd.seqNrIn {
 						log.Debug("SeqNr change", "seqNrIn", rsd.seqNrIn, "seqNr", rsd.seqNr)
 						rsd.isShifted = true
@@ -393,6 +393,16 @@ func rescaleTime(t int64, from, to uint32) int64 {
 // rescaleDur converts a sample duration from one timescale to another (rounding down).
 func rescaleDur(dur, from, to uint32) uint32 {
 	return uint32(uint64(dur) * uint64(to) / uint64(from))
+}
+
+// nearestSegNr returns the index of the segment grid point nearest to time t (in timescale ts) for
+// segments of segDur ticks in timescale segTs, in exact arithmetic: segDur*ts/segTs need not be a
+// whole number of ticks of the track.
+func nearestSegNr(t int64, ts, segDur, segTs uint32) uint32 {
+	num := new(big.Int).Mul(big.NewInt(2*t), big.NewInt(int64(segTs)))
+	den := big.NewInt(2 * int64(segDur) * int64(ts))
+	num.Add(num, big.NewInt(int64(segDur)*int64(ts)))
+	return uint32(num.Div(num, den).Uint64())
 }
 
 // registerStream makes a stream known the first time it is seen: its directory is created
